@@ -15,7 +15,9 @@ LEAN = os.path.join(VERIF, "lean")
 HARNESS = os.path.join(VERIF, "harness")
 WORK = os.path.join(VERIF, "work")
 REPLAYS = os.path.join(VERIF, "replays")
-EVIDENCE = os.path.join(VERIF, "evidence")
+# VERIF_EVIDENCE_DIR: development runs against a scratch copy (tools/run_seeded.py --scratch,
+# tools/mutate.py) must not overwrite the evidence of the real tree
+EVIDENCE = os.environ.get("VERIF_EVIDENCE_DIR") or os.path.join(VERIF, "evidence")
 DRIVER_BIN = os.path.join(LEAN, ".lake", "build", "bin", "pppdriver")
 NCPU = os.cpu_count() or 4
 
@@ -72,6 +74,9 @@ def harness_dir():
 def build_harness(profile="release"):
     """Rebuilds the harness against the repository's current working tree.
     Returns (binary path or None, log)."""
+    if os.environ.get("VERIF_HARNESS_BIN"):
+        # development only (tools/coverage.py): run a separately built, instrumented harness
+        return os.environ["VERIF_HARNESS_BIN"], "override"
     d, target = harness_dir()
     env = dict(ENV)
     env["CARGO_TARGET_DIR"] = target
